@@ -11,7 +11,7 @@ for d in sorted(glob.glob(os.path.join(VERIF, "seeded", "*"))):
     if not os.path.exists(mp):
         continue
     m = json.load(open(mp))
-    ran = ", ".join("%s:exit %s" % (c, v["exit"]) for c, v in m.get("checks", {}).items())
+    ran = ", ".join("%s:exit %s%s" % (c, v["exit"], " (after strengthening)" if v.get("after_strengthening") else "") for c, v in m.get("checks", {}).items())
     rows.append((os.path.basename(d), m.get("property"), "yes" if m.get("confirmed") else "NO", ", ".join(m.get("caught_by", [])) or "— (missed)", ran, m.get("needs", "")))
 print("| seeded change | property | confirmed | caught by (quick tier) | checks run | needs |")
 print("|---|---|---|---|---|---|")
